@@ -207,7 +207,45 @@ func l6(w *World, r *Report) {
 		}
 		for _, b := range fn.Blocks {
 			for _, in := range b.Instrs {
+				isMarker := false
 				if mu, ok := in.(*ssa.MapUpdate); ok && w.isFieldLoad(mu.Map, "", "updatedItems") {
+					isMarker = true
+				}
+				// the table handed to a helper of the package that inserts into it (`t.put(item)`)
+				if c, ok := in.(ssa.CallInstruction); ok {
+
+					if cal := c.Common().StaticCallee(); cal != nil && inLedgerPkg(w, cal) && len(cal.Params) == len(c.Common().Args) {
+						for ai, a := range c.Common().Args {
+							if !w.isFieldLoad(a, "", "updatedItems") {
+								continue
+							}
+							// an instantiation wrapper stands for the generic function it calls
+							body := cal
+							if o := cal.Origin(); o != nil && len(o.Params) == len(cal.Params) {
+								body = o
+							}
+							for _, cb := range body.Blocks {
+								for _, cin := range cb.Instrs {
+									if mu, isMU := cin.(*ssa.MapUpdate); isMU {
+										mv := stripConv(mu.Map)
+										// a value receiver is spilled into a local first
+										if ld, isLd := mv.(*ssa.UnOp); isLd && ld.Op == token.MUL {
+											if al, isA := ld.X.(*ssa.Alloc); isA {
+												if sv := singleStore(al); sv != nil {
+													mv = stripConv(sv)
+												}
+											}
+										}
+										if mv == ssa.Value(body.Params[ai]) {
+											isMarker = true
+										}
+									}
+								}
+							}
+						}
+					}
+				}
+				if isMarker {
 					f := fn
 					if o := f.Origin(); o != nil {
 						f = o
@@ -299,8 +337,9 @@ func l7(w *World, r *Report) {
 					acquired = true
 					continue
 				}
-				if !acquired {
-					why = "a call precedes the acquisition of the finality ledger's mutex (" + site(w, in) + ")"
+				// before the lock only calls that cannot touch the ledger (logging, formatting)
+				if !acquired && (cal == nil || w.InModule(cal) || strings.Contains(w.FuncPkgPath(cal), "iavl") || strings.Contains(w.FuncPkgPath(cal), "tm-db")) {
+					why = "a call that can reach the ledger precedes the acquisition of the finality ledger's mutex (" + site(w, in) + ")"
 					break scan
 				}
 			case *ssa.Defer:
